@@ -178,7 +178,14 @@ def fresh_copy(tpl):
 
 
 def run_scenario(case, rec, tier):
-    prep = prepare(case)
+    try:
+        prep = prepare(case)
+    except (Violation, HarnessError):
+        raise
+    except Exception as e:  # noqa: BLE001 - plain use: create, fill, commit, close, reopen r+
+        H.close_leaked_h5()
+        raise Violation("C11:committed-record-cannot-be-continued", f"{type(e).__name__}: {str(e)[:300]}",
+                        "a committed record reopens for patching")
     cls = prep["cls"]
     commit_via = case.get("commit_via", "commit_patch")
     exts = case.get("exts")
